@@ -100,7 +100,7 @@ QuickPats == {<<P_exact>>, <<P_pre4>>, <<P_pre3>>, <<P_all>>, <<P_suf>>}
 QuickVariants == {[file |-> F_all, keep |-> FALSE], [file |-> F_all, keep |-> TRUE], [file |-> F_a, keep |-> FALSE]}
 FullPats == {<<P_exact>>, <<P_pre4>>, <<P_pre3>>, <<P_pre2>>, <<P_all>>, <<P_suf>>, <<P_cls>>, <<P_q>>,
              <<P_exact, P_suf>>, <<P_pre2, P_q>>}
-FullVariants == QuickVariants \cup {[file |-> F_b, keep |-> FALSE], [file |-> F_a, keep |-> TRUE]}
+FullVariants == QuickVariants \cup {[file |-> F_b, keep |-> FALSE]}
 
 (* first-match: a later description never changes the placement of what an earlier one matched *)
 FirstMatchLaw ==
